@@ -26,10 +26,32 @@ func (p Persist) Load(ctx context.Context, name string) ([]byte, error) {
 func (p Persist) Store(ctx context.Context, name string, bytes []byte) error {
 	path := filepath.Join(p.basepath, name)
 	_, err := os.Stat(path)
-	if os.IsNotExist(err) {
-		return os.WriteFile(filepath.Join(p.basepath, name), bytes, 0644)
+	if err == nil {
+		return nil
 	}
-	return nil
+	if !os.IsNotExist(err) {
+		return err
+	}
+	// write under a temporary name in the same directory and rename, so that the final name
+	// never holds a partial node, whatever the point at which the write is cut short
+	tmp, err := os.CreateTemp(p.basepath, ".tmp-*")
+	if err != nil {
+		return err
+	}
+	_, err = tmp.Write(bytes)
+	if cerr := tmp.Close(); err == nil {
+		err = cerr
+	}
+	if err == nil {
+		err = os.Chmod(tmp.Name(), 0644)
+	}
+	if err == nil {
+		err = os.Rename(tmp.Name(), path)
+	}
+	if err != nil {
+		os.Remove(tmp.Name())
+	}
+	return err
 }
 
 // NewPersistForPath returns a Persist that loads and stores nodes as
